@@ -273,10 +273,11 @@ impl Core {
   }
 
   pub fn run_frame(&mut self) {
-    while self.memory.io.video.get_current_mode() != 1 {
-      self.update();
-    }
-    while self.memory.io.video.get_current_mode() == 1 {
+    // Run until the current or the next vertical blank has ended. The LCD
+    // counts them itself: a block may take longer than the vertical blank (or
+    // than a whole frame), so the mode seen between two blocks may never be 1.
+    let frame = self.memory.io.video.get_frame_count();
+    while self.memory.io.video.get_frame_count() == frame {
       self.update();
     }
   }
